@@ -86,6 +86,7 @@ def mx(b, e, st=None):
     if o == 'x': return b.x[e['i'] - 1]
     if o == 'u': return b.u[e['i'] - 1]
     if o == 'z': return b.z[e['i'] - 1]
+    if o == 'dx': return st.inf_der(b.x[e['i'] - 1])
     if o == 'p': return b.p[e['i'] - 1]
     if o == 'v': return b.v[e['i'] - 1]
     if o == 't': return st.t
